@@ -378,6 +378,20 @@ func c09NewWorld(aged bool) *world.World {
 	return world.New(world.Options{Catalog: cat, MinOplogSize: 2, MaxOplogSize: 1000, MinOplogAge: time.Nanosecond, MaxOplogAge: time.Hour})
 }
 
+// c09NewWorldSized is the aged database with other size limits of the retention (the minimum may exceed the maximum:
+// the minimum wins).
+func c09NewWorldSized(minSize, maxSize int) *world.World {
+	var f lungo.File
+	if err := bson.Unmarshal(c09AgedImage(), &f); err != nil {
+		panic(err)
+	}
+	cat, err := f.BuildCatalog()
+	if err != nil {
+		panic(err)
+	}
+	return world.New(world.Options{Catalog: cat, MinOplogSize: minSize, MaxOplogSize: maxSize, MinOplogAge: time.Nanosecond, MaxOplogAge: time.Hour})
+}
+
 // ---------------------------------------------------------------- sequential part (E1 DFS)
 
 type c09Runner struct {
